@@ -35,7 +35,10 @@ Definition hex_encode (data : option (list N)) (size : nat) : outcome (list N) :
   if Nat.eqb size 0 then Ok []
   else match data with
        | None => Throw InvalidArgument
-       | Some d => hex_encode_raw (firstn size d)
+       | Some d =>
+           (* reads data[0..size): a block shorter than `size` is read past its end *)
+           if Nat.ltb (length d) size then Fault OOBRead
+           else hex_encode_raw (firstn size d)
        end.
 
 (* ---- _ST_PRIVATE::hex_decode(hex, output, output_size) ----
@@ -107,6 +110,7 @@ Definition base64_encode (data : option (list N)) (size : nat) : outcome (list N
   else match data with
        | None => Throw InvalidArgument
        | Some d =>
+           if Nat.ltb (length d) size then Fault OOBRead else
            r <- b64_encode_raw (S size) (firstn size d) ;;
            (* result buffer has exactly b64_encode_size(size) cells *)
            if Nat.ltb (b64_encode_size size) (length r) then Fault OOBWrite
